@@ -245,7 +245,7 @@ func (r *R) Finish(verifDir string, known []KnownFinding) int {
 		"analysed":            r.Notes,
 		"stats":               r.Stats,
 		"checker_cmd":         fmt.Sprintf("./check %s %s", r.Prop, r.Tier),
-		"trusted_base":        r.Trusted,
+		"trusted_base":        append(append([]string{}, r.Trusted...), "go/packages, go/types, go/ssa (x/tools v0.29.0)", "the rule tables of /verif/lkcheck/props"),
 		"exhaustive":          false,
 	}
 	if len(r.Selftest) > 0 {
@@ -262,6 +262,13 @@ func (r *R) Finish(verifDir string, known []KnownFinding) int {
 	for k, v := range r.Extra {
 		cov[k] = v
 	}
+	if r.Assume == nil {
+		r.Assume = []string{}
+	}
+	if r.Trusted == nil {
+		r.Trusted = []string{}
+	}
+	r.Assume = append(r.Assume, "the analysed program is /repo's working tree as type-checked by go/packages with default build tags; cgo bodies and third-party modules are outside the analysed program")
 	ev := map[string]any{
 		"property_id": r.Prop,
 		"tier":        r.Tier,
